@@ -503,6 +503,9 @@ func pathClass(p string) string {
 	return "other"
 }
 
+// modules whose signer answers with the complete new document, not a patch
+var wholeDocument = map[string]bool{"appmanifest": true, "pgp": true, "deb": false}
+
 func c13Run(r *core.Run) {
 	c := c13Gen(r)
 	root := core.NewScratch()
@@ -544,7 +547,18 @@ func c13Run(r *core.Run) {
 				sawTemp = true
 			}
 		}
-		inPlace = !sawTemp && c.Strategy != "writefile"
+		// "patched in place" is something only a patch can be: a response that
+		// carries the complete new document (whole-file strategy, the PGP
+		// outputs, WriteFile) replaces the file, and doing that through the open
+		// input is exactly the torn file the property forbids
+		switch c.Strategy {
+		case "whole", "writefile", "pgp-detached", "pgp-inline", "pgp-clearsign":
+			inPlace = false
+		case "cli":
+			inPlace = !sawTemp && !wholeDocument[c.Cli.Mod]
+		default:
+			inPlace = !sawTemp
+		}
 	}
 	if inPlace {
 		// the path is being patched in place: exempt by the statement
